@@ -66,13 +66,17 @@ SPEC = {
     "force3d": dict(kind="force3d", new=lambda I: I.mod("tdfForce3D").ForceTorque3D(100, 1, **S.eye(I)),
                     add=lambda I, b, t: b.add_track(_track(I, "force3d", t)), remove=None, items=lambda b: b.tracks,
                     assign=lambda I, b, t: setattr(b, "tracks", [_track(I, "force3d", t)])),
-    "fpcal": dict(kind="fpcal", new=lambda I: I.mod("tdfForcePlatformsCalibration").ForcePlatformsCalibrationDataBlock(),
+    "fpcal": dict(item=lambda I, t: _fpcal_item(I, t), kind="fpcal", new=lambda I: I.mod("tdfForcePlatformsCalibration").ForcePlatformsCalibrationDataBlock(),
                   add=lambda I, b, t: b.add_platform(_fpinfo(I, t)), remove=lambda b: b.remove_platform(0), items=lambda b: b._platforms,
                   explicit=lambda I, t: _fpcal_explicit(I, t)),
     "fpdata": dict(kind="fpdata", new=lambda I: I.mod("tdfForcePlatformsData").ForcePlatformsDataBlock(0.0, 100, 1),
                    add=lambda I, b, t: b.add_platform(_fpdata(I, t)), remove=None, items=lambda b: b.platforms,
                    assign=lambda I, b, t: setattr(b, "platforms", [_fpdata(I, t)]), list_attr="platforms", item=lambda I, t: _fpdata(I, t)),
 }
+
+
+def _fpcal_item(I, t):
+    return I.mod("tdfForcePlatformsCalibration").ForcePlatformInfo(I.label(f"{t}.lab", 1), I.np.zeros((2,), dtype="<f4"), I.np.zeros((4, 3), dtype="<f4"))
 
 
 def _cam(I, t):
@@ -309,6 +313,34 @@ def cross_class_case(first, second):
     return h
 
 
+def shared_item_case(cls):
+    """The same item object is put into two blocks on different explicit channels: what the
+    first block holds and encodes must not change when the second one takes the item."""
+    def h(I):
+        I.fresh_modules()
+        spec = ALL[cls]
+        a = spec["new"](I)
+        b = spec["new"](I)
+        item = spec["item"](I, "sh") if "item" in spec else None
+        ch_a, ch_b = I.ibv("ch_a", "i16" if cls != "fpdata" else "u16"), I.ibv("ch_b", "i16" if cls != "fpdata" else "u16")
+        I.assume(I.not_(ch_a == ch_b))
+        if cls == "emg":
+            item = I.mod("tdfEMG").EMGTrack(I.label("sh.lab", 1), I.np.zeros((1,), dtype="<f4"))
+            a.addSignal(item, channel=ch_a)
+        else:
+            a.add_platform(item, channel=ch_a)
+        a0 = snap(I, spec, a)
+        if cls == "emg":
+            b.addSignal(item, channel=ch_b)
+        else:
+            b.add_platform(item, channel=ch_b)
+        a1 = snap(I, spec, a)
+        I.observe("a", [a0[2], a1[2]])
+        I.prove(f"C20.{cls}.other_instance_unchanged", same(I, a0, a1), "the same item object taken into a second block on another channel")
+        I.goal("done")
+    return h
+
+
 def replicate_case(cls, earlier):
     """The same construction steps give the same block, whatever other instances did before
     (no hidden process-wide counters): block B is built exactly like block A - same items,
@@ -424,6 +456,8 @@ def instances(tier):
             out.append(Instance(f"{cls}.decode.{m}", decode_case(cls, m), goals=["done"]))
     for m in ["add", "edit_nested"]:
         out.append(Instance(f"calib.decode.{m}", decode_case("calib", m), goals=["done"]))
+    for cls in ("fpdata", "emg", "fpcal"):
+        out.append(Instance(f"{cls}.shared_item", shared_item_case(cls), goals=["done"]))
     for cls in ALL:
         for earlier in (0, 1):
             out.append(Instance(f"{cls}.replicate.{earlier}", replicate_case(cls, earlier), goals=["done"]))
